@@ -256,6 +256,60 @@ pub mod time {
     }
 }
 
+/// A future that is never ready (de-sugared `x.await` on it is a pruned path).
+pub struct Pending;
+impl Pending {
+    pub fn now(self) {
+        crate::never_completes()
+    }
+}
+impl core::future::Future for Pending {
+    type Output = ();
+    fn poll(self: core::pin::Pin<&mut Self>, _: &mut core::task::Context<'_>) -> core::task::Poll<()> {
+        core::task::Poll::Pending
+    }
+}
+
+pub mod net {
+    //! Model UDP socket: nothing ever arrives, everything sent is dropped (the harnesses feed decoded peer
+    //! messages directly into the election code).
+    use std::io;
+    use std::net::SocketAddr;
+    pub struct UdpSocket;
+    pub struct RecvFut;
+    impl RecvFut {
+        pub fn now(self) -> io::Result<usize> {
+            crate::never_completes()
+        }
+    }
+    impl core::future::Future for RecvFut {
+        type Output = io::Result<usize>;
+        fn poll(self: core::pin::Pin<&mut Self>, _: &mut core::task::Context<'_>) -> core::task::Poll<Self::Output> {
+            core::task::Poll::Pending
+        }
+    }
+    pub struct SendToFut(usize);
+    impl SendToFut {
+        pub fn now(self) -> io::Result<usize> {
+            Ok(self.0)
+        }
+    }
+    impl core::future::Future for SendToFut {
+        type Output = io::Result<usize>;
+        fn poll(self: core::pin::Pin<&mut Self>, _: &mut core::task::Context<'_>) -> core::task::Poll<Self::Output> {
+            core::task::Poll::Ready(Ok(self.0))
+        }
+    }
+    impl UdpSocket {
+        pub fn recv(&self, _buf: &mut [u8]) -> RecvFut {
+            RecvFut
+        }
+        pub fn send_to(&self, buf: &[u8], _addr: SocketAddr) -> SendToFut {
+            SendToFut(buf.len())
+        }
+    }
+}
+
 pub mod io {
     use std::io;
     pub trait AsyncRead {}
